@@ -5,16 +5,23 @@
 (* shaped running sum over a RingBuffer.Fixed (layer 2) against the        *)
 (* last-N-frames window (layer 1) on the exact-arithmetic domain, here     *)
 (* with integer arithmetic (inputs in units of 1/4, squares of 1/16).      *)
-(*   window lengths 1..MaxWin, one channel, inputs k/4 for k in -2..2,       *)
+(*   window lengths 1..MaxWin, one channel, inputs k/4 for k in -2..2,     *)
 (*   every history of next / next_squared / current / reset / adaptor      *)
 (*   steps of any length (the reachable state set is finite and is         *)
 (*   explored completely; depth >= 3N+2 is not needed to close it).        *)
+(* Clone: from EVERY reachable state the detector may be cloned            *)
+(*   (StepClone); the system then has two instances, each continued on its *)
+(*   own (different inputs, reset of one of them) for CloneFuel further    *)
+(*   steps with inputs KC.  Every invariant is stated for every instance;  *)
+(*   CloneSame / Independent are the clauses about the copy itself.        *)
 (* Also writes the stimuli for the Rust harnesses (IOEnv.STIM_OUT).        *)
 (***************************************************************************)
 EXTENDS Naturals, Integers, Sequences, FiniteSets, TLC, Json, IOUtils, SequencesExt
 
-CONSTANTS MaxWin        \* window lengths 1..MaxWin
+CONSTANTS MaxWin,       \* window lengths 1..MaxWin
+          CloneFuel     \* steps explored after a clone (over both instances)
 K == -2..2              \* inputs k/4
+KC == {-1, 2}           \* inputs after a clone
 Ch == 1
 
 \* RmsCore over the integers: an input k stands for k/4, a square or a sum s for s/16 (exact)
@@ -28,85 +35,120 @@ In(k) == k
 Frame1(k) == [c \in 1..Ch |-> In(k)]
 
 VARIABLES n,            \* window length of this execution
-          win,          \* layer 1: the last n frames
-          c1,           \* layer 1 with cached squares / sum (channel 1)
-          l2,           \* layer 2: [rb, sum]
-          last          \* [op, out2, out1]: outputs of the step that produced this state
-                        \* (op = kind of step: "root" next/sig_next, "sq" next_squared/..., "cur", "reset")
-vars == << n, win, c1, l2, last >>
+          ins,          \* the detector instances (1, or 2 after a clone), each
+                        \*   [win: layer 1, the last n frames; c1: layer 1 with cached squares / sum (channel 1);
+                        \*    l2: layer 2, [rb, sum]]
+          last,         \* [op, i, out2, out1, others]: the step that produced this state -- its kind ("root" next/sig_next,
+                        \*   "sq" next_squared/..., "cur", "reset", "clone"), the instance it acted on, the outputs of the
+                        \*   two layers, and the OTHER instances as they were before the step
+          fuel          \* steps left once there are two instances
+vars == << n, ins, last, fuel >>
 
-\* integers are canonical: nothing to normalise
-NormL2(s) == s
-NormC1(s) == s
-NormOut(o) == o
-
-NoStep == [op |-> "init", out2 |-> << >>, out1 |-> << >>]
+Inst(w, c, s) == [win |-> w, c1 |-> c, l2 |-> s]
+Others(i) == [j \in 1..Len(ins) |-> IF j = i THEN << >> ELSE ins[j]]
+NoStep == [op |-> "init", i |-> 0, out2 |-> << >>, out1 |-> << >>, others |-> << >>]
 Init == /\ n \in 1..MaxWin
-        /\ win = L1Init(n, Ch) /\ c1 = C1Init(n) /\ l2 = L2Init(n, Ch)
-        /\ last = NoStep
+        /\ ins = << Inst(L1Init(n, Ch), C1Init(n), L2Init(n, Ch)) >>
+        /\ last = NoStep /\ fuel = CloneFuel
 
 L1Out(w, root) == [c \in 1..Ch |-> IF root THEN TrueRms(w, c) ELSE MeanSq(w, c)]
 
-Fed(op, k, r) ==       \* outcome of a step that consumes the frame k/4; r = layer-2 result
-  LET x == Frame1(k) w2 == L1Push(win, x) IN
-  [win |-> w2, c1 |-> NormC1(C1Push(c1, x[1])), l2 |-> NormL2(r.s),
-   last |-> [op |-> op, out2 |-> NormOut(r.out), out1 |-> NormOut(L1Out(w2, op = "root"))]]
-StepNext    == \E k \in K : LET f == Fed("root", k, L2Next(l2, Frame1(k))) IN
-                 UNCHANGED n /\ win' = f.win /\ c1' = f.c1 /\ l2' = f.l2 /\ last' = f.last
-StepNextSq  == \E k \in K : LET f == Fed("sq", k, L2NextSquared(l2, Frame1(k))) IN
-                 UNCHANGED n /\ win' = f.win /\ c1' = f.c1 /\ l2' = f.l2 /\ last' = f.last
+\* a single instance is explored without bound; two instances for CloneFuel steps, with inputs KC
+CanStep == Len(ins) = 1 \/ fuel > 0
+Burn == fuel' = IF Len(ins) = 1 THEN fuel ELSE fuel - 1
+Ks == IF Len(ins) = 1 THEN K ELSE KC
+Fed(i, op, k, r) ==    \* outcome of a step of instance i that consumes the frame k/4; r = layer-2 result
+  LET x == Frame1(k) w2 == L1Push(ins[i].win, x) IN
+  [ins  |-> [ins EXCEPT ![i] = Inst(w2, C1Push(ins[i].c1, x[1]), r.s)],
+   last |-> [op |-> op, i |-> i, out2 |-> r.out, out1 |-> L1Out(w2, op = "root"), others |-> Others(i)]]
+Take(f) == UNCHANGED n /\ ins' = f.ins /\ last' = f.last /\ Burn
+StepNext    == CanStep /\ \E i \in 1..Len(ins), k \in Ks : Take(Fed(i, "root", k, L2Next(ins[i].l2, Frame1(k))))
+StepNextSq  == CanStep /\ \E i \in 1..Len(ins), k \in Ks : Take(Fed(i, "sq", k, L2NextSquared(ins[i].l2, Frame1(k))))
 \* the adaptor pulls the frame from its source signal
-StepSig     == \E k \in K : LET r == SigNext(l2, << Frame1(k) >>) f == Fed("root", k, r) IN
-                 r.src = << >> /\ UNCHANGED n /\ win' = f.win /\ c1' = f.c1 /\ l2' = f.l2 /\ last' = f.last
-StepSigSq   == \E k \in K : LET r == SigNextSquared(l2, << Frame1(k) >>) f == Fed("sq", k, r) IN
-                 r.src = << >> /\ UNCHANGED n /\ win' = f.win /\ c1' = f.c1 /\ l2' = f.l2 /\ last' = f.last
-StepCurrent == /\ UNCHANGED << n, win, c1, l2 >>
-               /\ last' = [op |-> "cur", out2 |-> NormOut(L2Current(l2).out), out1 |-> NormOut(L1Out(win, TRUE))]
-StepReset   == /\ UNCHANGED n /\ win' = L1Init(n, Ch) /\ c1' = C1Init(n) /\ l2' = NormL2(L2Reset(l2).s)
-               /\ last' = [op |-> "reset", out2 |-> << >>, out1 |-> << >>]
+StepSig     == CanStep /\ Len(ins) = 1 /\ \E k \in Ks : LET r == SigNext(ins[1].l2, << Frame1(k) >>) IN
+                 r.src = << >> /\ Take(Fed(1, "root", k, r))
+StepSigSq   == CanStep /\ Len(ins) = 1 /\ \E k \in Ks : LET r == SigNextSquared(ins[1].l2, << Frame1(k) >>) IN
+                 r.src = << >> /\ Take(Fed(1, "sq", k, r))
+StepCurrent == CanStep /\ \E i \in 1..Len(ins) :
+                 /\ UNCHANGED << n, ins >> /\ Burn
+                 /\ last' = [op |-> "cur", i |-> i, out2 |-> L2Current(ins[i].l2).out, out1 |-> L1Out(ins[i].win, TRUE),
+                             others |-> Others(i)]
+StepReset   == CanStep /\ \E i \in 1..Len(ins) :
+                 /\ UNCHANGED n /\ Burn
+                 /\ ins' = [ins EXCEPT ![i] = Inst(L1Init(n, Ch), C1Init(n), L2Reset(ins[i].l2).s)]
+                 /\ last' = [op |-> "reset", i |-> i, out2 |-> << >>, out1 |-> << >>, others |-> Others(i)]
+\* Clone of the detector (or of the adaptor holding it): a second instance, field-by-field copy
+StepClone   == /\ Len(ins) = 1 /\ CloneFuel > 0 /\ UNCHANGED << n, fuel >>
+               /\ ins' = Append(ins, Inst(L1Clone(ins[1].win), C1Clone(ins[1].c1), L2Clone(ins[1].l2)))
+               /\ last' = [op |-> "clone", i |-> 1, out2 |-> << >>, out1 |-> << >>, others |-> << >>]
 \* no bound on the history length is needed: on the exact domain the reachable state set is finite
 \* (window contents x ring rotation), so TLC covers histories of EVERY length (in particular 3N+2)
-Next == StepNext \/ StepNextSq \/ StepSig \/ StepSigSq \/ StepCurrent \/ StepReset
+Next == StepNext \/ StepNextSq \/ StepSig \/ StepSigSq \/ StepCurrent \/ StepReset \/ StepClone
 Spec == Init /\ [][Next]_vars
 
 ---------------------------------------------------------------------------
-(* invariants = clauses of C11 on the exact domain *)
-RepInv == RB!FRepOK(l2.rb) /\ L2Len(l2) = n /\ Len(win) = n
+(* invariants = clauses of C11 on the exact domain, for every instance *)
+All(P(_)) == \A i \in 1..Len(ins) : P(ins[i])
+RepInv1(s) == RB!FRepOK(s.l2.rb) /\ L2Len(s.l2) = n /\ Len(s.win) = n
+RepInv == All(RepInv1)
 
 \* the running sum IS the sum of the squares of the last N frames, and the ring holds those squares
-SumIsWindow ==
-  /\ \A c \in 1..Ch : l2.sum[c] = SumSq(win, c)
-  /\ \A i \in 1..n : \A c \in 1..Ch : RB!FAbs(l2.rb)[i][c] = ISq(win[i][c])
+SumIsWindow1(s) ==
+  /\ \A c \in 1..Ch : s.l2.sum[c] = SumSq(s.win, c)
+  /\ \A i \in 1..n : \A c \in 1..Ch : RB!FAbs(s.l2.rb)[i][c] = ISq(s.win[i][c])
+SumIsWindow == All(SumIsWindow1)
 \* the cached form used by the trace spec is layer 1
-CachedAgrees ==
-  /\ c1.sum = SumSq(win, 1)
-  /\ \A i \in 1..n : c1.win[i] = ISq(win[i][1])
+CachedAgrees1(s) ==
+  /\ s.c1.sum = SumSq(s.win, 1)
+  /\ \A i \in 1..n : s.c1.win[i] = ISq(s.win[i][1])
+CachedAgrees == All(CachedAgrees1)
 \* every output of layer 2 is the property's value (mean square / its root over exactly n frames)
 OutRefines == last.out2 = last.out1
+NonNeg1(s) == \A c \in 1..Ch : s.l2.sum[c] >= 0
 NonNeg ==
-  /\ \A c \in 1..Ch : l2.sum[c] >= 0
+  /\ All(NonNeg1)
   /\ \A c \in DOMAIN last.out2 : last.out2[c].num >= 0 /\ last.out2[c].den = n
 \* on the exact domain the clamp never fires: sum + new - evicted is the new window sum, >= 0
-ClampIdle ==
+ClampIdle1(s) ==
   \A k \in K : \A c \in 1..Ch :
-    l2.sum[c] + ISq(In(k)) - l2.rb.data[l2.rb.first + 1][c] >= 0
+    s.l2.sum[c] + ISq(In(k)) - s.l2.rb.data[s.l2.rb.first + 1][c] >= 0
+ClampIdle == All(ClampIdle1)
+\* from this state on, layer 2 answers like the detector t (current, and next for every input)
+AnswersLike(s, t) ==
+  /\ L2Current(s).out = L2Current(t).out
+  /\ \A k \in K : L2Next(s, Frame1(k)).out = L2Next(t, Frame1(k)).out
 \* reset restores the all-zero state: same outputs as a fresh detector from here on
 ResetInit ==
   last.op = "reset" =>
+    LET l2 == ins[last.i].l2 IN
     /\ \A c \in 1..Ch : l2.sum[c] = 0
     /\ \A i \in 1..n : \A c \in 1..Ch : RB!FAbs(l2.rb)[i][c] = 0
-    /\ NormOut(L2Current(l2).out) = NormOut(L2Current(L2Init(n, Ch)).out)
-    /\ \A k \in K : NormOut(L2Next(l2, Frame1(k)).out) = NormOut(L2Next(L2Init(n, Ch), Frame1(k)).out)
+    /\ AnswersLike(l2, L2Init(n, Ch))
+\* a clone is the original at that moment: same window, same sum, same answers from here on
+CloneSame ==
+  last.op = "clone" =>
+    /\ Len(ins) = 2 /\ ins[2].win = ins[1].win /\ ins[2].c1 = ins[1].c1
+    /\ RB!FAbs(ins[2].l2.rb) = RB!FAbs(ins[1].l2.rb) /\ ins[2].l2.sum = ins[1].l2.sum
+    /\ AnswersLike(ins[2].l2, ins[1].l2)
+\* ... and independent of it afterwards: a step changes no instance but its own
+Independent == \A j \in 1..Len(last.others) : j # last.i => ins[j] = last.others[j]
 
 ---------------------------------------------------------------------------
 (* stimuli: for every n, every window content w, every ring rotation j (j junk frames first),   *)
-(* a set of continuations; plus one long history per n; through the API and through the adaptor *)
+(* a set of continuations; plus one long history per n; through the API and through the adaptor; *)
+(* plus CloneStim: a clone at EVERY position of short runs, both copies continued differently.   *)
+(* The ring storage handed to Rms::new (Vec, Box<[T]>, &mut [T], [T; n]) is spread over them.    *)
 Fmts == << "f32", "f64", "i8", "i16", "i32", "u16" >>
+Stores == << "vec", "box", "array", "slice" >>        \* bare detector; the adaptor runs use vec / box
 Rot(k, c) == ((k + 2 + c - 1) % 5) - 2                 \* channel c carries a rotated copy of channel 1
 Fr(k, ch) == [c \in 1..ch |-> [d |-> << Rot(k, c), 2 >>]]
-Ev(e, k, ch) == [ev |-> e, a |-> [x |-> Fr(k, ch)]]
-Ev0(e) == [ev |-> e, a |-> [z |-> 0]]
-Reset(nn, f, ch, via) == [ev |-> "reset", comp |-> "rms", cfg |-> [n |-> nn, fmt |-> f, ch |-> ch, via |-> via]]
+EvI(e, i, k, ch) == [ev |-> e, a |-> [i |-> i, x |-> Fr(k, ch)]]
+Ev0I(e, i) == [ev |-> e, a |-> [i |-> i, z |-> 0]]
+Ev(e, k, ch) == EvI(e, 0, k, ch)
+Ev0(e) == Ev0I(e, 0)
+Clone(e, i, j) == [ev |-> e, a |-> [i |-> i, j |-> j]]
+ResetS(nn, f, ch, via, st, src) ==
+  [ev |-> "reset", comp |-> "rms", cfg |-> [n |-> nn, fmt |-> f, ch |-> ch, via |-> via, store |-> st, src |-> src]]
 Feeds(e, ks, ch) == [i \in 1..Len(ks) |-> Ev(e, ks[i], ch)]
 \* continuations after the window has been established; k (derived from the window) picks the values
 Tails(ch, k) ==
@@ -115,24 +157,52 @@ Tails(ch, k) ==
 SigTails(ch, k) == { << Ev("sig_next", k, ch), Ev("sig_next_squared", 0 - k, ch), Ev("sig_next", Rot(k, 2), ch) >> }
 WSum(w) == LET S[i \in 0..Len(w)] == IF i = 0 THEN 0 ELSE S[i - 1] + w[i] + 2 IN S[Len(w)]
 Long(nn, k0) == [i \in 1..(3 * nn + 2) |-> ((k0 + 2 + i * i) % 5) - 2]
-Stimuli ==
+BaseStim ==
   UNION { UNION { UNION {
       LET f  == Fmts[((WSum(w) + j) % 6) + 1]
           ch == ((WSum(w) + j) % 2) + 1
           pre == [i \in 1..j |-> 2 - (i % 2) * 4]       \* junk: +-2/4
           kk == ((WSum(w) + 3 * j) % 5) - 2
-      IN { << Reset(nn, f, ch, "direct") >> \o Feeds("next", pre \o w, ch) \o tl : tl \in Tails(ch, kk) }
+          st == Stores[((WSum(w) \div 2 + j) % 4) + 1]
+      IN { << ResetS(nn, f, ch, "direct", st, "iter") >> \o Feeds("next", pre \o w, ch) \o tl : tl \in Tails(ch, kk) }
          \cup
-         { << Reset(nn, f, ch, "signal") >> \o Feeds("sig_next", pre \o w, ch) \o tl : tl \in SigTails(ch, kk) }
+         { << ResetS(nn, f, ch, "signal", Stores[((WSum(w) + j) % 2) + 1], "iter") >>
+              \o Feeds("sig_next", pre \o w, ch) \o tl : tl \in SigTails(ch, kk) }
     : j \in 0..(nn - 1) } : w \in [1..nn -> K] } : nn \in 1..MaxWin }
   \cup
-  UNION { { << Reset(nn, Fmts[((k0 + 2 + nn) % 6) + 1], 1 + (nn % 2), "direct") >>
+  UNION { { << ResetS(nn, Fmts[((k0 + 2 + nn) % 6) + 1], 1 + (nn % 2), "direct", Stores[((k0 + 2 + nn) % 4) + 1], "iter") >>
               \o Feeds(IF k0 % 2 = 0 THEN "next" ELSE "next_squared", Long(nn, k0), 1 + (nn % 2))
               \o << Ev0("current"), Ev0("rms_reset"), Ev0("current") >> : k0 \in K } : nn \in 1..MaxWin }
+\* Clone after m frames, for EVERY m in 0..2n+1 (window empty, partly filled, full, turned over), every start value k0:
+\* both copies are continued with different inputs, one of them is reset, and the other must not notice.
+\*   bare detector (storages that can be cloned): rms_clone, then the tails below, once resetting the original, once the clone
+\*   adaptor over the queue source: sig_clone; later one of the adaptors is taken apart (sig_parts) and goes on as the bare detector
+CloneTail(ch, k, a, b) ==      \* a = the instance that is reset, b = the other one
+  << EvI("next", b, k, ch), EvI("next_squared", a, 0 - k, ch), Ev0I("current", b), Ev0I("current", a),
+     Ev0I("rms_reset", a), EvI("next", a, Rot(k, 2), ch), Ev0I("current", b), EvI("next_squared", b, Rot(k, 3), ch),
+     Ev0I("rms_move", b), Ev0I("current", b), Ev0I("current", a) >>
+SigCloneTail(ch, k, a, b) ==
+  << EvI("sig_next", b, k, ch), EvI("sig_next_squared", a, 0 - k, ch), EvI("sig_next", b, Rot(k, 2), ch),
+     Ev0I("sig_move", a), Ev0I("sig_parts", a), Ev0I("current", a), EvI("sig_next_squared", b, Rot(k, 3), ch),
+     Ev0I("rms_reset", a), EvI("next", a, k, ch), Clone("rms_clone", a, 2), EvI("next", 2, k, ch), EvI("sig_next", b, 0 - k, ch) >>
+CloneStim ==
+  UNION { UNION { UNION {
+      LET h   == (((k0 + 2) * 31 + m * 7 + nn * 13) * 7919) % 100003     \* mixed, then read as a mixed-radix number
+          f   == Fmts[(h % 6) + 1]
+          ch  == ((h \div 6) % 2) + 1
+          a   == (h \div 12) % 2                                           \* the instance that is reset / taken apart
+          kk  == IF k0 = 0 THEN 1 ELSE k0
+          pre == SubSeq(Long(nn, k0), 1, m)
+      IN { << ResetS(nn, f, ch, "direct", Stores[((h \div 24) % 3) + 1], "iter") >> \o Feeds("next", pre, ch)
+             \o << Clone("rms_clone", 0, 1) >> \o CloneTail(ch, kk, a, 1 - a),
+           << ResetS(nn, f, ch, "signal", Stores[((h \div 24) % 2) + 1], "gen") >> \o Feeds("sig_next", pre, ch)
+             \o << Clone("sig_clone", 0, 1) >> \o SigCloneTail(ch, kk, a, 1 - a) }
+    : m \in 0..(2 * nn + 1) } : k0 \in K } : nn \in 1..MaxWin }
+Stimuli == BaseStim \cup CloneStim
 WriteStimuli ==
   IF "STIM_OUT" \in DOMAIN IOEnv
     THEN /\ ndJsonSerialize(IOEnv.STIM_OUT, SetToSeq(Stimuli))
-         /\ PrintT(<< "STIMULI", Cardinality(Stimuli) >>)
+         /\ PrintT(<< "STIMULI", Cardinality(BaseStim), Cardinality(CloneStim) >>)
     ELSE TRUE
 ASSUME WriteStimuli
 =============================================================================
